@@ -29,7 +29,7 @@ pub fn h_or<M: VMode, Er: VEr>() {
     run::<u8, Er, (), _>(|inp, s0| {
         let anyp = |k| anyp::<SymIn<u8>, X<Er>>(k);
         let p = anyp(0).or(anyp(1));
-        let r = p.go::<M>(inp);
+        let r = p.gov::<M>(inp);
         let s = snap(inp);
         let (a, b) = (lg(inp, 0), lg(inp, 1));
         vassert!(a.called && a.calls == 1, "C01/or.first-alternative-tried-exactly-once");
@@ -116,7 +116,7 @@ macro_rules! seq2_asserts {
 pub fn h_then<M: VMode, Er: VEr>() {
     run::<u8, Er, (), _>(|inp, s0| {
         let anyp = |k| anyp::<SymIn<u8>, X<Er>>(k);
-        let r = anyp(0).then(anyp(1)).go::<M>(inp);
+        let r = anyp(0).then(anyp(1)).gov::<M>(inp);
         let s = snap(inp);
         let (a, b) = (lg(inp, 0), lg(inp, 1));
         let v = seq2_spec::<M, Er>(&s0, &s, &a, &b, r.is_ok(), ok_with::<M, _>(&r, (a.out, b.out)));
@@ -126,7 +126,7 @@ pub fn h_then<M: VMode, Er: VEr>() {
 pub fn h_ignore_then<M: VMode, Er: VEr>() {
     run::<u8, Er, (), _>(|inp, s0| {
         let anyp = |k| anyp::<SymIn<u8>, X<Er>>(k);
-        let r = anyp(0).ignore_then(anyp(1)).go::<M>(inp);
+        let r = anyp(0).ignore_then(anyp(1)).gov::<M>(inp);
         let s = snap(inp);
         let (a, b) = (lg(inp, 0), lg(inp, 1));
         let v = seq2_spec::<M, Er>(&s0, &s, &a, &b, r.is_ok(), ok_with::<M, _>(&r, b.out));
@@ -136,7 +136,7 @@ pub fn h_ignore_then<M: VMode, Er: VEr>() {
 pub fn h_then_ignore<M: VMode, Er: VEr>() {
     run::<u8, Er, (), _>(|inp, s0| {
         let anyp = |k| anyp::<SymIn<u8>, X<Er>>(k);
-        let r = anyp(0).then_ignore(anyp(1)).go::<M>(inp);
+        let r = anyp(0).then_ignore(anyp(1)).gov::<M>(inp);
         let s = snap(inp);
         let (a, b) = (lg(inp, 0), lg(inp, 1));
         let v = seq2_spec::<M, Er>(&s0, &s, &a, &b, r.is_ok(), ok_with::<M, _>(&r, a.out));
@@ -148,7 +148,7 @@ pub fn h_then_ignore<M: VMode, Er: VEr>() {
 pub fn h_or_not<M: VMode, Er: VEr>() {
     run::<u8, Er, (), _>(|inp, s0| {
         let anyp = |k| anyp::<SymIn<u8>, X<Er>>(k);
-        let r = anyp(0).or_not().go::<M>(inp);
+        let r = anyp(0).or_not().gov::<M>(inp);
         let s = snap(inp);
         let a = lg(inp, 0);
         vassert!(a.called && a.calls == 1 && a.entry_pos == s0.pos, "C01/or_not.child-tried-once-from-entry");
@@ -175,7 +175,7 @@ pub fn h_or_not<M: VMode, Er: VEr>() {
 pub fn h_not<M: VMode, Er: VEr>() {
     run::<u8, Er, (), _>(|inp, s0| {
         let anyp = |k| anyp::<SymIn<u8>, X<Er>>(k);
-        let r = anyp(0).not().go::<M>(inp);
+        let r = anyp(0).not().gov::<M>(inp);
         let s = snap(inp);
         let a = lg(inp, 0);
         vassert!(a.called && a.calls == 1 && a.entry_pos == s0.pos, "C01/not.child-tried-once-from-entry");
@@ -198,7 +198,7 @@ pub fn h_not<M: VMode, Er: VEr>() {
 pub fn h_and_is<M: VMode, Er: VEr>() {
     run::<u8, Er, (), _>(|inp, s0| {
         let anyp = |k| anyp::<SymIn<u8>, X<Er>>(k);
-        let r = anyp(0).and_is(anyp(1)).go::<M>(inp);
+        let r = anyp(0).and_is(anyp(1)).gov::<M>(inp);
         let s = snap(inp);
         let (a, b) = (lg(inp, 0), lg(inp, 1));
         vassert!(a.called && a.calls == 1 && a.entry_pos == s0.pos, "C01/and_is.left-tried-once-from-entry");
@@ -239,7 +239,7 @@ pub fn h_and_is<M: VMode, Er: VEr>() {
 pub fn h_rewind<M: VMode, Er: VEr>() {
     run::<u8, Er, (), _>(|inp, s0| {
         let anyp = |k| anyp::<SymIn<u8>, X<Er>>(k);
-        let r = anyp(0).rewind().go::<M>(inp);
+        let r = anyp(0).rewind().gov::<M>(inp);
         let s = snap(inp);
         let a = lg(inp, 0);
         vassert!(a.called && a.calls == 1 && a.entry_pos == s0.pos, "C01/rewind.child-tried-once-from-entry");
